@@ -92,7 +92,8 @@ class NearestBetterClustering:
 
     def _find_root_nodes(self) -> list[Node]:
         nodes = self.tree.all_nodes()
-        mean_distance = np.mean(self.distances)
+        # With a single node there is no edge (and no mean): nothing can be cut and the best individual is the only seed.
+        mean_distance = np.mean(self.distances) if self.distances else 0.0
         correction_factor = 1 if not self.use_correction else self._get_correction_factor()
         return [
             node for node in nodes if node.data["distance"] > mean_distance * self.distance_factor * correction_factor
